@@ -46,7 +46,7 @@ func checkConsensus(c Case) error {
 	n := &consensus.Network{}
 	cs := consensus.State{Network: n, Index: types.ChainIndex{Height: c.H}}
 	for i := range cs.PrevTimestamps {
-		cs.PrevTimestamps[i] = time.Unix(c.T, 0)
+		cs.PrevTimestamps[i] = time.Unix(c.T, c.TN)
 	}
 	msg, validate := spendVia(cs, addr, types.SatisfiedPolicy{})
 
@@ -67,7 +67,7 @@ func checkConsensus(c Case) error {
 		pres[i] = p.pre()
 	}
 	sh := shapeOf(root)
-	want := refAccepts(root, sh, c.H, c.T, msg, sigs, pres)
+	want := refAccepts(root, sh, c.H, c.T, c.TN, msg, sigs, pres)
 	err := validate(types.SatisfiedPolicy{Policy: presented, Signatures: sigs, Preimages: pres})
 	if (err == nil) != want {
 		return stats.Failf("C14/consensus-verdict", "ValidateV2Transaction err=%v, reference accepted=%v: policy %s height=%d time=%d witnesses %s [%s]",
@@ -99,7 +99,7 @@ func checkConsensus(c Case) error {
 	} else {
 		nt = sh.mixed && len(sh.pks)+len(sh.hs) >= 2
 	}
-	rec.Case(stats.FP("consensus", root.String(), witnessText(&c), c.H, uint64(c.T)), nt, "consensus:"+verdict, "consensus:gen:"+c.Gen+":"+verdict)
+	rec.Case(stats.FP("consensus", root.String(), witnessText(&c), c.H, uint64(c.T), uint64(c.TN)), nt, "consensus:"+verdict, "consensus:gen:"+c.Gen+":"+verdict)
 	return nil
 }
 
